@@ -19,7 +19,7 @@ func init() {
 		Level: "other",
 		Explanation: "Decided (structural necessary conditions of layout independence): (R1.1) inside the re-entrant object-resolution cycle the shared file handle is only used positionally (ReadAt / SectionReader / Stat / Close), never through its seek offset, so resolving an indirect /Length cannot disturb a suspended parse; (R1.2) inheritable page attributes are looked up on a cycle that follows /Parent, i.e. to any depth; (R1.3) decoded content streams are joined with PDF white space between them; (R1.4) the filter, xref-kind, font-subtype and /Length-type dispatch tables are complete; (R1.5) page leaves are appended in /Kids order; (R4.1/R4.3 are re-used: last startxref, newest-wins merge, cache discipline). " +
 			"Not decided: that extracted text equals the logical document, decoding correctness (C05/C07), object order/EOL variants at run time, the page count claim beyond returning /Count.",
-		Rules: []func(*eng.Ctx){loopVarRule("R1.LV", "core", "reader", "pages", "text", "contentstream", "font", "resolver"), ruleSharedHandle, ruleInheritWalk, ruleContentSep, ruleDispatchTables, rulePageOrder, ruleMergeOrder, ruleCacheDiscipline, ruleXRefStreamCursor, roleRule("R1.R", "core", "reader", "pages"), ruleReadBytesOwned, ruleFilterParmsParallelC01, ruleWorklistOrderC01, ruleFontsFromOwnResources, ruleA85GroupsInDigits, ruleSectionKindPerSection},
+		Rules: []func(*eng.Ctx){ruleEscapes, loopVarRule("R1.LV", "core", "reader", "pages", "text", "contentstream", "font", "resolver"), ruleSharedHandle, ruleInheritWalk, ruleContentSep, ruleDispatchTables, rulePageOrder, ruleMergeOrder, ruleCacheDiscipline, ruleXRefStreamCursor, roleRule("R1.R", "core", "reader", "pages"), ruleReadBytesOwned, ruleFilterParmsParallelC01, ruleWorklistOrderC01, ruleFontsFromOwnResources, ruleA85GroupsInDigits, ruleSectionKindPerSection},
 	})
 }
 
@@ -439,9 +439,42 @@ func ruleDispatchTables(c *eng.Ctx) {
 		c.Check(asserted["core.Int"] && asserted["core.IndirectRef"] && resolves, R, "core.(*Parser).parseStream#length-kinds", fn.Pos(), "/Length may be direct or indirect", "parseStream no longer handles both a direct and an indirect /Length")
 		// ReadBytes(length): the argument derives from the Length value
 		okLen := false
-		for _, ci := range eng.CallsNamed(fn, false, "core.(*Lexer).ReadBytes") {
-			for v := range eng.SliceInter(eng.ArgsWithRecv(ci)[1], nil, lenCluster) {
-				if ta, ok := v.(*ssa.TypeAssert); ok && (eng.TypeName(ta.AssertedType) == "core.Int") {
+		// the read may sit in a stage of parseStream that is handed the length as a parameter: follow parameters of
+		// cluster functions to the arguments at their call sites inside the cluster
+		var derives func(v ssa.Value, depth int) bool
+		seenPar := map[ssa.Value]bool{}
+		derives = func(v ssa.Value, depth int) bool {
+			for w := range eng.SliceInter(v, nil, lenCluster) {
+				if ta, ok := w.(*ssa.TypeAssert); ok && (eng.TypeName(ta.AssertedType) == "core.Int") {
+					return true
+				}
+				par, isPar := w.(*ssa.Parameter)
+				if !isPar || seenPar[par] || depth > 3 || par.Parent() == fn {
+					continue
+				}
+				seenPar[par] = true
+				pi := -1
+				for i, q := range par.Parent().Params {
+					if q == par {
+						pi = i
+					}
+				}
+				for _, h := range lenCluster {
+					for _, site := range eng.Calls(h, false, func(_ string, ci ssa.CallInstruction) bool { return eng.StaticCallee(ci) == par.Parent() }) {
+						args := eng.ArgsWithRecv(site)
+						if pi >= 0 && pi < len(args) && derives(args[pi], depth+1) {
+							return true
+						}
+					}
+				}
+			}
+			return false
+		}
+		nRead := 0
+		for _, h := range lenCluster {
+			for _, ci := range eng.CallsNamed(h, false, "core.(*Lexer).ReadBytes") {
+				nRead++
+				if derives(eng.ArgsWithRecv(ci)[1], 0) {
 					okLen = true
 				}
 			}
